@@ -875,6 +875,13 @@ def judge_mbi_full(case, ml, il):
     return default_judge(case, ml, il)
 
 
+def judge_skip_ok(case, ml, il):
+    """as judge_mbi_full; a build without the `builder` feature prints SKIP for what does not exist there"""
+    if il == ["SKIP"]:
+        return ("ok", "")
+    return judge_mbi_full(case, ml, il)
+
+
 def model_ub(case, ml):
     """lines where the model itself predicts undefined behaviour (Fault) on an input inside the contract"""
     # ELF section names live at an external address: a name read leaving the external buffer is outside every property's claim
@@ -1476,8 +1483,9 @@ PROPS.update({
                 "length 0..40 in six shapes, palettes of 0..300 colours, payloads of every length 0..40, boundary and seeded random field "
                 "values, documented rejections (module end <= start, EFI desc_size 0); header tags additionally placed behind a u32 in a "
                 "repr(C) wrapper before as_bytes(). Compared: type, size, size_of_val, bytes up to the size, as_bytes, accessor read-back. "
-                "distinct_nontrivial = distinct (domain, model transcript) pairs."),
-                configs=["dev", "rel"], judge=judge_mbi_full,
+                "The constructors of the sized tags (not feature-gated in the crates) are also run in the two builds without the "
+                "`builder` feature; the others print SKIP there. distinct_nontrivial = distinct (domain, model transcript) pairs."),
+                configs=["dev", "rel", "dev-nb", "rel-nb"], judge=judge_skip_ok,
                 assumptions=["VBE control/mode info structs are supplied as raw bytes with a valid memory_model byte"]),
     "C12": dict(gen=_builder_gen(["hbuild"],
                 "hbuild: every subset of the 10 builder slots for I386 (exhaustive, 1024) in random call order, a seeded sample for MIPS32, "
@@ -1528,8 +1536,15 @@ def gen_C08(rng, tier):
             cs = r2.sample(cs, 2500)
         dist[name] = len(cs)
         cases += cs
+    # the constructors of the sized tags exist in every feature configuration
+    g = TB.Gen(rng.getrandbits(32))
+    SIZED = {"0", "4", "5", "7", "10", "11", "12", "14", "15", "18", "19", "20", "21"}
+    cs = [c for c in TB.GENS["ctor"](g, 1) if c.split()[1] in SIZED] + [c for c in TB.GENS["hctor"](g, 1) if c.split()[1] != "1"]
+    dist["sized_constructors"] = len(cs)
+    cases += cs
     return cases, dict(
-        rule="the parse-side case sets of C01, C09, C02, C03, C10, C13, C14, C18, C19 and C20 (see those properties; quick: at most a seeded "
+        rule="the constructors of the sized tags of both crates; "
+             "the parse-side case sets of C01, C09, C02, C03, C10, C13, C14, C18, C19 and C20 (see those properties; quick: at most a seeded "
              "2500 of each), run in four builds of the harness: dev and release profile x default features and --no-default-features; "
              "every transcript is compared with the model instantiated with the build's profile. distinct_nontrivial = distinct "
              "(domain, model transcript) pairs.",
